@@ -13,6 +13,24 @@ template<class F> static std::unique_ptr<Proc> mk(F f) { return std::unique_ptr<
 static int outr(const arr_real& r, double* y) { put_real(r, y); return r.size(); }
 static int outc(const arr_cmplx& r, double* y) { put_cmplx(r, y); return 2 * r.size(); }
 
+// adaptive filters (real): input sample = (x, d); K > 0 locks the coefficients after the K-th sample of the stream, whatever the framing
+// (a frame that straddles sample K is processed in two calls, so every instance has a call boundary exactly at K)
+template<class P> static std::unique_ptr<Proc> adaptive_real(std::shared_ptr<P> p, int K) {
+    auto cnt = std::make_shared<int>(0);
+    return mk([p, cnt, K](const double* x, int n, double* y) {
+        std::vector<double> yy, ee;
+        auto run = [&](int from, int to) {
+            arr_real a(to - from), d(to - from); for (int i = from; i < to; ++i) { a[i - from] = x[2*i]; d[i - from] = x[2*i+1]; }
+            auto r = (*p)(a, d); for (int i = 0; i < r.y.size(); ++i) yy.push_back(r.y[i]); for (int i = 0; i < r.e.size(); ++i) ee.push_back(r.e[i]);
+        };
+        const int done = *cnt;
+        if (K > 0 && done >= K) p->set_lock_coeffs(true);
+        if (K > 0 && done < K && done + n > K) { run(0, K - done); p->set_lock_coeffs(true); run(K - done, n); } else run(0, n);
+        *cnt += n;
+        int k = 0; for (double v : yy) y[k++] = v; for (double v : ee) y[k++] = v;
+        return k + outr(p->coeffs(), y + k);
+    });
+}
 // ip: integer params, dp: double params, c: coefficient vector
 static std::unique_ptr<Proc> make(int kind, const int* ip, const double* dp, const double* c, int nc) {
     switch (kind) {
@@ -35,21 +53,13 @@ static std::unique_ptr<Proc> make(int kind, const int* ip, const double* dp, con
     case 16: { auto p = std::make_shared<Compressor>(ip[0], dp[0], ip[1], dp[1], dp[2], dp[3]); return mk([p](const double* x, int n, double* y) { auto r = (*p)(mk_real(x, n)); int k = outr(r.out, y); return k + outr(r.gain, y + k); }); }
     case 17: { auto p = std::make_shared<Limiter>(ip[0], dp[0], dp[1], dp[2], dp[3]); return mk([p](const double* x, int n, double* y) { auto r = (*p)(mk_real(x, n)); int k = outr(r.out, y); return k + outr(r.gain, y + k); }); }
     case 18: { auto p = std::make_shared<NoiseGate>(ip[0], dp[0], dp[1], dp[2], dp[3]); return mk([p](const double* x, int n, double* y) { auto r = (*p)(mk_real(x, n)); int k = outr(r.out, y); return k + outr(r.gain, y + k); }); }
-    case 19: case 20: {   // LMS / NLMS real: input sample = (x, d)
-        auto p = std::make_shared<LmsFilterR>(ip[0], dp[0], kind == 19 ? LmsType::LMS : LmsType::NLMS, dp[1]);
-        return mk([p](const double* x, int n, double* y) { arr_real a(n), d(n); for (int i = 0; i < n; ++i) { a[i] = x[2*i]; d[i] = x[2*i+1]; }
-            auto r = (*p)(a, d); int k = outr(r.y, y); k += outr(r.e, y + k); return k + outr(p->coeffs(), y + k); });
-    }
+    case 19: case 20: return adaptive_real(std::make_shared<LmsFilterR>(ip[0], dp[0], kind == 19 ? LmsType::LMS : LmsType::NLMS, dp[1]), ip[1]);   // LMS / NLMS real; ip[1] = lock after that many samples (0 = never)
     case 21: {   // LMS complex: input sample = (xr, xi, dr, di)
         auto p = std::make_shared<LmsFilterC>(ip[0], dp[0], ip[1] ? LmsType::NLMS : LmsType::LMS, dp[1]);
         return mk([p](const double* x, int n, double* y) { arr_cmplx a(n), d(n); for (int i = 0; i < n; ++i) { a[i] = cmplx_t{x[4*i], x[4*i+1]}; d[i] = cmplx_t{x[4*i+2], x[4*i+3]}; }
             auto r = (*p)(a, d); int k = outc(r.y, y); k += outc(r.e, y + k); return k + outc(p->coeffs(), y + k); });
     }
-    case 22: {   // RLS real
-        auto p = std::make_shared<RlsFilterR>(ip[0], dp[0], dp[1]);
-        return mk([p](const double* x, int n, double* y) { arr_real a(n), d(n); for (int i = 0; i < n; ++i) { a[i] = x[2*i]; d[i] = x[2*i+1]; }
-            auto r = (*p)(a, d); int k = outr(r.y, y); k += outr(r.e, y + k); return k + outr(p->coeffs(), y + k); });
-    }
+    case 22: return adaptive_real(std::make_shared<RlsFilterR>(ip[0], dp[0], dp[1]), ip[1]);   // RLS real
     case 23: {   // RLS complex
         auto p = std::make_shared<RlsFilterC>(ip[0], dp[0], dp[1]);
         return mk([p](const double* x, int n, double* y) { arr_cmplx a(n), d(n); for (int i = 0; i < n; ++i) { a[i] = cmplx_t{x[4*i], x[4*i+1]}; d[i] = cmplx_t{x[4*i+2], x[4*i+3]}; }
